@@ -14,6 +14,8 @@ package virtualtable
 //@   assumed
 //@   pure
 //@   ensures forallstr(a, result0 != aliasToIndexNames[orgid][a])
+//@   ensures implies(result1 == nil, uf("safeName", bool, indexName))
+//@   note the frame and the freshness of the returned map are ASSUMED (file and JSON reading); the second postcondition is PROVED on the body by the view `GetAliases @validated` below
 //@ end
 // (C19) the alias file of an index is removed / written only under a name that
 // passed the index-name validator; frames PROVED (nothing a caller sees is
@@ -93,4 +95,29 @@ package virtualtable
 //@   assumecalleerequires
 //@   site call addVirtualTableHelper #1:
 //@     assert [only-a-validated-name-is-registered] tname != nil && uf("safeName", bool, *tname)
+//@ end
+
+// C13: deleting an index removes exactly its own line from the organisation's
+// table list (a text file rewritten with string operations: outside the string
+// model, decided by the bounded stand-in only).
+//@ func DeleteVirtualTable
+//@   props C13
+//@   note no proof obligations: this contract only attaches the bounded stand-in
+//@   bounded virtualtable/deletevtable_test.go Test_Bounded_DeleteVirtualTable every non-empty subset of 5 index names that are prefixes / suffixes / infixes of each other registered for one organisation (all 5 for a second one), every registered name deleted in turn (80 deletions): the list is the subset minus that name, the other organisation's list is untouched
+//@ end
+
+// C19: an alias becomes resolvable (ingest addressed to the alias is written
+// under the resolved index name, which becomes a directory name) only for an
+// index name that passed the validator — the in-memory alias map is updated
+// after the alias file of that name could be read and written, never before.
+//@ func GetAliases @validated
+//@   props C19
+//@   assumecalleerequires
+//@   ensures [aliases-are-read-only-for-a-validated-index-name] implies(result1 == nil, uf("safeName", bool, indexName))
+//@ end
+//@ func AddAliases
+//@   props C19
+//@   assumecalleerequires
+//@   site call putAliasToIndexInMem #1:
+//@     assert [an-alias-resolves-only-to-a-validated-index-name] uf("safeName", bool, indexName) && arg1 == indexName
 //@ end
